@@ -26,6 +26,9 @@ CHECKS = {
     "C06": dict(
         text="Every explored path of the schema-shape family must end in the documented channel; user callbacks consult one symbolic fault flag per invocation, so the solver enumerates fault schedules; schema fingerprint, configuration and input compared before/after.",
         ref="4/C06", tech="symbolic execution with symbolic fault schedules (one solver variable per callback invocation)"),
+    "C10": dict(
+        text="The real try_coerce / numpy_pandas_coerce_failure_cases protocol runs over a stub pair for the element conversion (one uninterpreted Boolean per element); z3 proves success => same rows and dtype check, failure => failure cases are exactly the inconvertible elements, idempotence; schema-level coercion verdicts against the numeric astype model.",
+        ref="4/C10", tech="symbolic execution with an uninterpreted element-conversion stub pair + z3"),
     "C11": dict(
         text="Row presence of the returned symbolic frame is a formula over the inputs; z3 proves it equals the documented row-level validity predicate (no invalid row survives, no valid row dropped, surviving cells unchanged).",
         ref="4/C11", tech="symbolic execution + z3 equivalence of row-presence formulas with the oracle"),
@@ -35,6 +38,9 @@ CHECKS = {
     "C05": dict(
         text="Histories of public-API operations chosen by the solver (engine.choice per step), the data of each validating step symbolic; fingerprint of the schema object graph and the verdict on a symbolic probe compared with a fresh schema after every prefix.",
         ref="4/C05", tech="symbolic execution over operation histories (solver-chosen next operation) + z3"),
+    "C07": dict(
+        text="Bounded model checking of schedules: the real validate calls are traced alone (configuration operations; reads/writes of shared schema attributes), the operation semantics are extracted from pandera/config.py by symbolic execution, and z3 is asked for an interleaving of 2-3 threads in which a read observes a non-solo value or shared state is not restored; every schedule found is replayed on real OS threads under a deterministic scheduler.",
+        ref="2.5, 4/C07", tech="SMT-based bounded model checking of thread schedules over traced operations (z3), schedule replay on OS threads", engine="schedsmt"),
     "C08": dict(
         text="The two real implementations of every built-in check and the two real check back ends run on the same symbolic column (symframe vs sympolars); z3 decides verdict and failing-row agreement for all cells, nulls and arguments; label-level twin functions compared on real frames per solver-chosen option.",
         ref="4/C08", tech="differential symbolic execution of the pandas and polars implementations + z3 equivalence queries"),
@@ -90,6 +96,10 @@ def main():
                    source_commits=[], add_only=True),
         engines=[
             dict(name="symx", path="lib/symx.py", serves_properties=[p for p in props if p in CHECKS], kind_free_text="symbolic executor for real Python code (proxy values, re-execution DFS, z3 decides every branch)"),
+            dict(name="schedsmt", path="lib/props/c07.py", serves_properties=["C07"], kind_free_text="SMT bounded model checking of thread schedules over traced operations; replay on OS threads"),
+            dict(name="sympolars", path="lib/sympolars.py", serves_properties=["C08"], kind_free_text="polars expression algebra over z3 terms (Kleene null logic)"),
+            dict(name="symstrat", path="lib/symstrat.py", serves_properties=["C13"], kind_free_text="hypothesis strategy constructors as constraint collectors (contract stubs)"),
+            dict(name="crosshair", path="lib/ch_env.py", serves_properties=["C18"], kind_free_text="CrossHair 0.0.110 conditions over the real environment parser (symbolic strings)"),
             dict(name="symframe", path="lib/symframe.py", serves_properties=[p for p in props if p in CHECKS], kind_free_text="pandas API over z3 terms (environment model), validated per path against real pandas"),
         ],
         checks=checks, not_applicable=na,
